@@ -9,6 +9,9 @@ func init() {
 		Run: func(c *Ctx) {
 			ruleStructNoLoad(c)
 			ruleCountZero(c)
+			// round 12: a field with an index is encoded whatever its other tags say; nil bytes stay nil
+			ruleBuildGuards(c)
+			ruleBytesNil(c)
 			ruleReg(c)
 			ruleMemAll(c)
 			ruleKind(c)
